@@ -100,8 +100,17 @@ def observed_and_batched(kind, B):
                         [PR + "_update_eq_params_dict", PR + "_get_vmap_in_axes_params"])
 
 
-def hetero(kind, declared, via):
-    """declared: dict key -> 'h' | None ; keys absent are undeclared"""
+class _CallableObject:
+    """a heterogeneity map given as an object with __call__ (an eqx.Module is the same case)"""
+    def __init__(self, f):
+        self.f = f
+    def __call__(self, *a):
+        return self.f(*a)
+
+
+def hetero(kind, declared, via, form="lambda"):
+    """declared: dict key -> 'h' | None ; keys absent are undeclared; form: how the callables are given
+    (lambda | functools.partial | object with __call__) — any callable is a heterogeneity map"""
     def build():
         dp = {"ODE": 1, "statio": 1, "nonstatio": 2}[kind]
         H = {k: Opaque("h" + k, dp + 1 + 2, 1) for k, v in declared.items() if v == "h"}
@@ -114,7 +123,9 @@ def hetero(kind, declared, via):
             if kind == "statio":
                 return lambda x, u, params: core(x, u(x, params), params)
             return lambda t, x, u, params: core(jnp.concatenate([t, x]), u(t, x, params), params)
-        het = {k: (mk(k) if v == "h" else None) for k, v in declared.items()}
+        import functools
+        wrap = {"lambda": (lambda f: f), "partial": (lambda f: functools.partial(f)), "object": _CallableObject}[form]
+        het = {k: (wrap(mk(k)) if v == "h" else None) for k, v in declared.items()}
         S = Scen(kind, B=2, hetero=het)
         names = S.names()
         def fn(*args):
@@ -153,7 +164,7 @@ def hetero(kind, declared, via):
         return dict(fn=fn, spec=spec, canary=lambda *z: spec(*z, wrong=True), inputs=S.inputs())
     dd = ",".join(f"{k}:{v}" for k, v in declared.items()) or "empty"
     wrap = {"ODE": "wrapper_ode", "statio": "wrapper_pde_statio", "nonstatio": "wrapper_pde_non_statio"}[kind]
-    return EqObligation(f"C12/DynamicLoss.evaluate/ensures.heterogeneity[{kind},declared={dd},via={via}]", build,
+    return EqObligation(f"C12/DynamicLoss.evaluate/ensures.heterogeneity[{kind},declared={dd},via={via}{'' if form == 'lambda' else ',given_as=' + form}]", build,
                         ["jinns.loss._DynamicLossAbstract:_decorator_heteregeneous_params." + wrap,
                          "jinns.loss._DynamicLossAbstract:DynamicLoss._eval_heterogeneous_parameters"])
 
@@ -161,7 +172,7 @@ def hetero(kind, declared, via):
 def obligations(tier):
     obs = []
     for kind in ("ODE", "statio", "nonstatio"):
-        for K in ((), ("a",), ("b",), ("a", "b")):
+        for K in ((), ("a",), ("b",), ("a", "b"), ("b", "a")):      # ("b","a"): batch dict written in another order than eq_params
             obs.append(batched(kind, K, 2))
         if tier == "thorough":
             obs.append(batched(kind, ("a",), 3))
@@ -174,6 +185,8 @@ def obligations(tier):
         for declared in ({"a": "h"}, {"b": "h", "a": None}, {}, {"a": "h", "b": "h"}):
             obs.append(hetero(kind, declared, "evaluate"))
         obs.append(hetero(kind, {"a": "h"}, "loss"))
+        obs.append(hetero(kind, {"a": "h", "b": None}, "evaluate", form="partial"))
+        obs.append(hetero(kind, {"b": "h"}, "evaluate", form="object"))
     try:
         from contracts.c13 import c12_system_obligations
         obs += c12_system_obligations(tier)
